@@ -884,6 +884,18 @@ def _run_item(item: dict, wall: float) -> dict:
             return {"i": item["i"], "trace": run_direct(sc, wall_limit=wall)}
         if kind == "ka":
             return {"i": item["i"], "trace": run_ka(sc, wall_limit=wall)}
+        if sc.get("_judge"):
+            mode = sc["_judge"]
+            sc = {k: v for k, v in sc.items() if k != "_judge"}
+            tr = run_history(sc, wall_limit=wall)
+            if tr.get("sim_error"):
+                return {"i": item["i"], "trace": {"sim_error": tr["sim_error"]}}
+            from . import c13
+            try:
+                return {"i": item["i"], "trace": c13.judge(sc, tr, full=(mode == "full"))}
+            except Exception as e:  # noqa: BLE001
+                import traceback
+                return {"i": item["i"], "trace": {"judge_error": f"{type(e).__name__}: {e}\n{traceback.format_exc()[-2500:]}"}}
         return {"i": item["i"], "trace": run_history(sc, wall_limit=wall)}
     except Exception as e:  # noqa: BLE001
         import traceback
